@@ -394,7 +394,11 @@ def forced_cases(seed, n):
             pre = [g.leaf() for _ in range(r.randrange(1, 4))]
             if r.random() < 0.5:
                 pre.append(("AnyOf", [g.leaf(), ("Nullish", "undefined")]))
-            rt = ("Tuple", pre, g.leaf() if r.random() < 0.5 else None)
+            rest = g.leaf() if r.random() < 0.5 else None
+            if r.random() < 0.4:
+                # a rest element that is an object (its members are projected / revalidated like everything else)
+                rest = ("Object", [("a", g.leaf()), ("n", ("Object", [("x", g.leaf())], []))][: r.randrange(1, 3)], [])
+            rt = ("Tuple", pre, rest)
         elif kind == 5:
             rt = g.disc_rt(2, [])
             if r.random() < 0.5:
